@@ -45,6 +45,7 @@ type nsGen struct {
 	used  map[string]bool
 	nums  []int64 // amounts seen (for the balance lattice)
 	depth int
+	hot   string // one account per program is reached again and again, so that statements collide on it
 }
 
 func (g *nsGen) wrong() bool { return g.bad > 0 && g.r.n(1000) < g.bad }
@@ -84,6 +85,9 @@ func (g *nsGen) acctExpr(pool []string) J {
 	}
 	if vs := g.varsOf("account"); len(vs) > 0 && g.r.p(30) {
 		return lit("var", vs[g.r.n(len(vs))].name)
+	}
+	if g.hot != "" && g.r.p(35) {
+		return lit("acct", g.hot)
 	}
 	return lit("acct", g.r.pick(pool))
 }
@@ -392,6 +396,7 @@ func genNumscript(r *rng, n int, tier string, emit func(J)) {
 	}
 	for c := 0; c < n; c++ {
 		g := &nsGen{r: r.fork(), used: map[string]bool{}, asset: "USD"}
+		g.hot = g.r.pick(nsAccts)
 		if g.r.p(20) {
 			g.bad = 15
 		}
@@ -479,6 +484,8 @@ func genNumscript(r *rng, n int, tier string, emit func(J)) {
 				}
 				if a == "world" {
 					b = big.NewInt(-int64(g.r.n(1000)))
+				} else if a == g.hot && g.r.p(30) {
+					b = big.NewInt(-int64(1 + g.r.n(40)))
 				}
 				bal = append(bal, []string{a, s, b.String()})
 			}
